@@ -807,10 +807,21 @@ func mGetIn(a []MalType) res {
 		return fail
 	}
 	cur := a[0]
-	for _, k := range path.Val {
+	for idx, k := range path.Val {
+		// the documents show a missing last key (nil) but never a path that goes on beneath a nil:
+		// Clojure answers nil, this implementation sometimes an error: unspecified
+		if cur == nil && idx > 0 {
+			return any_
+		}
 		// README: "ks must be a vector of hash map keys" (indices for vectors, stepG)
 		switch k.(type) {
-		case string, int:
+		case string:
+		case int:
+			// an index is a key of a vector only: met by a map or by nil it is not a "hash map key",
+			// which the README leaves undefined (the implementation answers with an error, Clojure with nil)
+			if _, isVec := cur.(Vector); !isVec {
+				return any_
+			}
 		default:
 			return any_
 		}
